@@ -15,6 +15,8 @@ package main
 //  size     distinct per-partition sizes, gated and failing remote lookups (C17).
 
 import (
+	"google.golang.org/grpc/codes"
+	"google.golang.org/grpc/status"
 	"context"
 	"errors"
 	"fmt"
@@ -58,6 +60,16 @@ func classifyMsg(m string) string {
 		return "unreachable"
 	}
 	return "other(" + m + ")"
+}
+
+var peerErrors = []error{
+	status.Error(codes.Canceled, "context canceled"),
+	status.Error(codes.DeadlineExceeded, "context deadline exceeded"),
+	status.Error(codes.Unavailable, "transport is closing"),
+	status.Error(codes.ResourceExhausted, "grpc: received message larger than max"),
+	status.Error(codes.Unknown, ""),
+	context.Canceled,
+	context.DeadlineExceeded,
 }
 
 type clusterRef struct {
@@ -634,11 +646,11 @@ func runClusterSearch(c *Ctx, r *Rng, shape [3]int) {
 			}
 		}
 		sort.Strings(lists)
-		desc := fmt.Sprintf("search via node %d k=%d order=%v failing=%v -> %d items err=%v", entry, k, order, failingKeys(failing), len(res), err)
+		desc := fmt.Sprintf("search via node %d k=%d order=%v failing=%s -> %d items err=%v", entry, k, order, failingDesc(failing), len(res), err)
 		c.OpLocal("%s", desc)
 		if anyFail { // a node that had to be consulted failed (a failing node that was not chosen as replica is irrelevant)
 			if err == nil {
-				c.Violate("C09", "C09/partial-success", fmt.Sprintf("a node could not be searched (%v) but the dataset search returned success with %d items", failingKeys(failing), len(res)), c.History())
+				c.Violate("C09", "C09/partial-success", fmt.Sprintf("a node could not be searched (%s) but the dataset search returned success with %d items", failingDesc(failing), len(res)), c.History())
 			}
 			return
 		}
@@ -717,6 +729,13 @@ func runClusterSearch(c *Ctx, r *Rng, shape [3]int) {
 			trial(entry, q, 5, o, map[uint64]error{n: errStreamFault}, "fail-first")
 			o2 := append(without(cl.ids, n), n)
 			trial(entry, q, 5, o2, map[uint64]error{n: errStreamFault}, "fail-last")
+			// the errors a peer (or the gRPC layer in front of it) hands back while the caller's
+			// own context is alive: the peer shutting down, the peer's own deadline, a closing
+			// transport, a per-call timeout of the client
+			for _, pe := range peerErrors {
+				trial(entry, q, 5, nil, map[uint64]error{n: pe}, "fail-peer-status")
+				trial(entry, q, 5, nil, map[uint64]error{n: streamFault{pe}}, "fail-peer-status")
+			}
 		}
 		c.Nontrivial("faults")
 	}
@@ -845,6 +864,18 @@ func runClusterSearch(c *Ctx, r *Rng, shape [3]int) {
 		cl.dmHook = nil
 		cl.mu.Unlock()
 	}
+}
+
+func failingDesc(m map[uint64]error) string {
+	var ss []string
+	for _, k := range failingKeys(m) {
+		e, how := m[k], "call fails"
+		if sf, ok := e.(streamFault); ok {
+			e, how = sf.error, "stream fails"
+		}
+		ss = append(ss, fmt.Sprintf("node %d: %s with %q", k, how, e.Error()))
+	}
+	return "[" + strings.Join(ss, "; ") + "]"
 }
 
 func failingKeys(m map[uint64]error) []uint64 {
